@@ -39,7 +39,7 @@ func genC07(t *rapid.T) *C07Case {
 		p.MaxHB = g.maxHB
 		c.Prior = p
 	}
-	b := genHistory(t, HistKnobs{NoGoodLogon: true, Local: false, LongAdvance: true, MaxSteps: 25})
+	b := genHistory(t, HistKnobs{NoGoodLogon: true, Local: false, LocalLogout: true, LongAdvance: true, MaxSteps: 25})
 	// resend ranges were drawn relative to a guess; bias them to the prior's numbers
 	if c.Prior != nil {
 		last := len(c.Prior.Steps) + 1
@@ -135,6 +135,18 @@ func checkC07(c *C07Case, rec *evid.Rec) (vs []pbt.Violation) {
 	}
 	if intersects {
 		rec.Hist("resend-range-intersects-store")
+	}
+	for i, st := range c.B.Steps {
+		if st.Op == "logout" || st.Op == "stop" {
+			rec.Hist("local-" + st.Op + "-before-any-logon")
+			for _, later := range c.B.Steps[i+1:] {
+				if later.Op == "in" && later.In.Type == rig.TResendRequest && later.In.Damage == "" {
+					rec.Hist("resend-request-after-local-logout")
+					break
+				}
+			}
+			break
+		}
 	}
 	if advanced >= int64(c.B.Cfg.HBMax)*1e9 {
 		rec.Hist("idle-longer-than-max-interval")
